@@ -93,9 +93,6 @@ theorem spellerProcess_geo (hrc : ComposeGeoSpec env.recompose) (k : Key) {c : C
 
 /-! selector -/
 
-theorem sameGeo_tagPaging_idx (i : Nat) : SameGeo (fun g => tagPaging { g with selIdx := i }) :=
-  fun _ => ⟨rfl, rfl, rfl⟩
-
 theorem selectorAct_geo (a : SelAct) {c : Ctx} (h : GeoInv c) : GeoInv (selectorAct env a c).1 := by
   unfold selectorAct
   split
